@@ -174,7 +174,10 @@ def solve_one(job):
     for stage, smt, opts in stages:
         try:
             # the cheap stages get a short budget; only the last one the full budget
-            verdict, model, reason = _z3_check(smt, timeout_ms if stage == "full" else min(timeout_ms, 3000), opts)
+            # the cheap abstractions get a short budget; e-matching and the full run the whole budget each (a proof found by
+            # e-matching in a second must not be lost to a slow machine)
+            budget = timeout_ms if stage in ("full", "ematch") else min(timeout_ms, 3000)
+            verdict, model, reason = _z3_check(smt, budget, opts)
         except z3.Z3Exception as ex:
             verdict, model, reason = "unknown", None, f"z3 exception: {ex}"
         if verdict == "unsat":
